@@ -166,9 +166,10 @@ func (g *gemExtension) init(input string) error {
 	}
 	// Trim trailing zeros.
 	for i := len(elements) - 1; i >= 0; i-- {
-		if elements[i].str == "0" {
-			elements = elements[:i]
+		if elements[i].str != "0" {
+			break // Only trailing zeros are insignificant.
 		}
+		elements = elements[:i]
 	}
 	// Integers for numbers.
 	for i, e := range elements {
